@@ -412,6 +412,10 @@ func (r *RefCount[T]) resolve(ctx context.Context, waitCh, doneCh chan struct{},
 	if waitCh != nil {
 		select {
 		case <-ctx.Done():
+			// The previous resolve call may still be running: wait for it
+			// before doneCh is closed (deferred above), since the next
+			// resolve call chains on doneCh to know the resolver is idle.
+			<-waitCh
 			return
 		case <-waitCh:
 		}
